@@ -120,6 +120,10 @@ class GridFlow(WidgetWrap[Pile], WidgetContainerMixin, WidgetContainerListConten
         self._cache_maxcol = None
         super()._invalidate()
 
+    def selectable(self) -> bool:
+        """Return True if any cell is selectable (the display widget may not have been rebuilt yet)."""
+        return any(w.selectable() for w, _options in self.contents)
+
     def _contents_modified(
         self,
         _slc: tuple[int, int, int],
